@@ -779,10 +779,16 @@ def c20(tier, seed):
         t3 = transport("c20-transport", MaxSend=2, Depth=4, BadBudget=1, SetBudget=1, RekeyBudget=2, SmallBufs=True)
         r3 = replay("C20", t3, seed, 1, backends="mix", threads=14)
     # (b) fallback truth table
-    t2 = run_tlc("MC_Fallback", {}, invariants=["IffEither"], name="c20-fallback", workers=1, timeout=300)
+    t2 = run_tlc("MC_Fallback", {"HfsF": False}, invariants=["IffEither"], name="c20-fallback", workers=1, timeout=300)
     resf = os.path.join(WORK, "c20-fallback", "result.json")
     rc, out = harness(["fallback", "--table", t2["out"], "--result", resf])
     fb = json.load(open(resf))
+    # the hfs build's resolver interface has a fifth kind (the KEM): same table plus the kem rows, on the hfs harness
+    t2h = run_tlc("MC_Fallback", {"HfsF": True}, invariants=["IffEither"], name="c20-fallback-hfs", workers=1, timeout=300)
+    resfh = os.path.join(WORK, "c20-fallback-hfs", "result.json")
+    rc, out = harness(["fallback", "--table", t2h["out"], "--result", resfh], hfs=True)
+    fbh = json.load(open(resfh))
+    fb = dict(rows=fb["rows"] + fbh["rows"], violations=fb["violations"] + fbh["violations"], samples=fb["samples"])
     os.makedirs(os.path.join(REPLAYS, "C20"), exist_ok=True)
     fviol = []
     for v in fb["violations"]:
@@ -1063,7 +1069,8 @@ def hfs_legs(prop, tier, seed):
     if prop == "C12":
         t = run_tlc("MC_Builder", dict(FullRollback=True, PatSetB=BASE, BuilderDhs=["25519", "P256"], HfsB=True),
                     invariants=["PrereqSane"], name="c12-hfs-builder", workers=1, timeout=1200)
-        rl.append(replay(prop, t, seed, 1, threads=14, hfs=True))
+        # ... for the default backend and for fallback pairs (which must find the KEM of whichever member has one)
+        rl.append(replay(prop, t, seed, 1, threads=14, hfs=True, backends="mix-sample"))
         tl.append(t)
     return tl, rl
 
